@@ -199,11 +199,22 @@ def rule_ids(ctx):
     stores = [c for c in ast.walk(fn) if isinstance(c, ast.Call) and unparse(c.func).endswith("storePreKey")]
     oks = len(stores) == 1 and len(stores[0].args) == 2 and unparse(stores[0].args[0]) == unparse(stores[0].args[1]) + ".getId()"
     ctx.check("C14.ids", oks, w, stores[0] if stores else fn, "each generated key must be stored under its own id", "stored under its own id")
-    # max id query
+    # max id query: the highest id ever handed out.  Rows of consumed keys are deleted (below), so max(prekey_id) over the
+    # stored rows alone is lowered by consuming the highest key and the next batch would offer that id again for a
+    # different key: the query must also consult a source deletions do not lower (the AUTOINCREMENT counter of the table)
     st = repo.method(PKS, "LitePreKeyStore", "loadMaxPreKeyId")
-    q = [n.value.value for n in ast.walk(st) if isinstance(n, ast.Assign) and isinstance(n.value, ast.Constant) and isinstance(n.value.value, str)]
-    okq = len(q) == 1 and sql.parse(q[0]).verb == "SELECT" and sql.parse(q[0]).columns == ["max(prekey_id)"] and sql.parse(q[0]).table == "prekeys"
-    ctx.check("C14.ids", okq, where(PKS, "LitePreKeyStore.loadMaxPreKeyId", st.lineno), q[0] if q else st, "the highest id must be max(prekey_id) over all stored keys", "max(prekey_id)")
+    qs = [x.value for x in ast.walk(st) if isinstance(x, ast.Constant) and isinstance(x.value, str) and x.value.strip().upper().startswith("SELECT")]
+    has_max = any("max(prekey_id)" in q_.replace(" ", "").lower().replace("max(prekey_id)", "max(prekey_id)") and "prekeys" in q_ for q_ in qs)
+    durable = any("sqlite_sequence" in q_ and "prekeys" in q_ for q_ in qs)
+    rets = [r for r in ast.walk(st) if isinstance(r, ast.Return) and r.value is not None]
+    combined = bool(rets) and all(isinstance(r.value, ast.Call) and isinstance(r.value.func, ast.Name) and r.value.func.id == "max" and len(r.value.args) >= 2 for r in rets)
+    k_, tbl = None, None
+    autoinc = any(isinstance(x, ast.Constant) and isinstance(x.value, str) and "CREATE TABLE" in x.value.upper() and "prekeys" in x.value and "AUTOINCREMENT" in x.value.upper()
+                  for x in ast.walk(repo.module(PKS).tree))
+    ctx.check("C14.ids", has_max, where(PKS, "LitePreKeyStore.loadMaxPreKeyId", st.lineno), "max(prekey_id) over the stored keys", "the highest stored id must be consulted", "max(prekey_id)")
+    ctx.check("C14.ids", durable and combined and autoinc, where(PKS, "LitePreKeyStore.loadMaxPreKeyId", st.lineno), "high-water mark survives consumption",
+              "the next id is derived from the rows still stored only: once the key with the highest id has been consumed (its row is deleted) the next batch starts at that id again - one id is offered to the server for two different keys",
+              "max(stored ids, AUTOINCREMENT counter): not lowered by deleting consumed keys")
     # consumed keys are removed (cannot be used twice): the store's removePreKey deletes by id (C13) and is part of the store API handed to the library
     rm = repo.method(PKS, "LitePreKeyStore", "removePreKey")
     ctx.check("C14.ids", "DELETE FROM prekeys WHERE prekey_id" in unparse(rm), where(PKS, "LitePreKeyStore.removePreKey", rm.lineno), "removePreKey deletes by id", "a consumed key must be deleted by its id", "deleted by id")
@@ -385,7 +396,7 @@ def _profile_obj(cls, manager_obj):
 def run(ctx):
     ctx.rule("C14.sent", "sent flag only from the upload's success callback", floor=6)
     ctx.rule("C14.flag", "pending predicate / written value / insert default consistent", floor=4)
-    ctx.rule("C14.ids", "ids after the stored maximum; strict threshold", floor=5)
+    ctx.rule("C14.ids", "ids after the highest id ever handed out; strict threshold", floor=6)
     ctx.rule("C14.bundle", "identity, registration id and one signed-prekey record feed the upload", floor=5)
     ctx.rule("C14.login", "passive login, single flush by copy, reboot", floor=9)
     ctx.assume("python-axolotl consumes one-time keys through the store's removePreKey and verifies signatures itself; histories are not decided")
